@@ -89,8 +89,49 @@ def grand_down(h, i):
     return grand_up(h, i)
 
 
-def inv(h):
+REVEAL = [True]      # the driver reveals the definition only while verifying heap.py itself and the heap lemmas
+
+
+def inv_def(h):
     return conj(shape(h), index_inv(h), order_inv(h))
+
+
+def gray_range(h):
+    return forall(0, h.size, lambda x: implies(eq(h.color[x], GRAY), conj(le(0, h.pos[x]), le(h.pos[x], h.last))))
+
+
+def inv(h):
+    """heap invariant.  For the callers of the heap (graph algorithms) it is OPAQUE: an uninterpreted predicate of
+    the heap's fields plus the few consequences they use (shape, colour domain, queued positions in range); the
+    definition (shape + index_inv + order_inv) is revealed only inside heap.py's own obligations and lemmas."""
+    from pyvc.logic import MODE
+    if MODE.kind != "sym" or REVEAL[0]:
+        return inv_def(h)
+    import z3
+    from pyvc.engine import INT, REAL
+    AI, AR = z3.ArraySort(INT, INT), z3.ArraySort(INT, REAL)
+    Q = z3.Function("HEAP_INV", AI, AI, AR, AI, INT, INT, INT, z3.BoolSort())
+    from pyvc.logic import lift
+    return conj(Q(h.p.arr, h.pos.arr, h.cost.arr, h.color.arr, lift(h.last, INT), lift(h.size, INT),
+                  lift(h.policy, INT)),
+                shape(h), colors_ok(h), gray_range(h))
+
+
+def with_cost(h, x, c):
+    import types
+    import z3
+    from pyvc.engine import SList, REAL
+    from pyvc.logic import lift
+    return types.SimpleNamespace(p=h.p, pos=h.pos, color=h.color, last=h.last, size=h.size, policy=h.policy,
+                                 cost=SList(z3.Store(h.cost.arr, lift(x, z3.IntSort()), lift(c, REAL)),
+                                            h.cost.length, "real"))
+
+
+def _cost_write_conclusion(h, x):
+    import z3
+    c = z3.Real("cw.c")
+    hc = with_cost(h, x, c)
+    return z3.ForAll([c], inv(hc), patterns=[hc.cost.arr])
 
 
 def same_list(a, b, n):
@@ -267,6 +308,14 @@ lemma("inj_card", params={"f": "list[int]", "g": "list[int]", "a": "int", "b": "
       vcs=lambda f, g, a, b: [("use_pigeonhole",
                                [ge(a, 0), ge(b, 0), inj_hyp(f, g, a, b), gt(a, b),
                                 implies(ph_hyp(f, g, b + 1), ph_concl(f, g, b + 1))], False)])
+
+
+# writing the cost of an element that is not queued does not disturb the heap (callers set h.cost[i] directly)
+lemma("cost_write", params={"h": "obj:Heap", "x": "int"}, props=PROPS,
+      hyp=lambda h, x: [("inv", inv(h)), ("x", conj(le(0, x), lt(x, h.size))), ("not_queued", ne(h.color[x], GRAY))],
+      conclusion=_cost_write_conclusion,
+      vcs=lambda h, x: [("preserved", [inv(h), le(0, x), lt(x, h.size), ne(h.color[x], GRAY)],
+                         inv(with_cost(h, x, __import__("z3").Real("cw.c0"))))])
 
 
 # ---------------------------------------------------------------- insert / remove / update
